@@ -111,6 +111,7 @@ fn long_string() -> BoxedStrategy<String> {
             1 => Just("~".to_string()),
             1 => Just("^".to_string()),
             1 => Just("é".to_string()),
+            1 => proptest::sample::select(vec!["²", "½", "٣", "Ⅷ", "１", "৭", "ß", "Ω", "一"]).prop_map(|s| s.to_string()),
             1 => Just("~~".to_string()),
             1 => Just("^~".to_string()),
         ],
